@@ -44,8 +44,11 @@ def do_replay(prop_id, path):
     runner.bind()
     rec = json.load(open(path))
     if rec.get('history_dependent'):
-        acc = mod.run_shard(rec['shard'])
-        res = [v for v in acc.viol if v['sub'] == rec['sub'] and runner.jsonable(v['case']) == rec['case']]
+        acc = runner.Acc()
+        for sh in (rec['shard'] if isinstance(rec['shard'], list) else [rec['shard']]):
+            acc.viol.extend(mod.run_shard(sh).viol)
+        res = [v for v in acc.viol if rec.get('varying') or
+               (v['sub'] == rec['sub'] and runner.jsonable(v['case']) == rec['case'])][:3]
         print('(history-dependent violation: re-ran the whole shard %s)' % json.dumps(rec['shard']))
     else:
         res = mod.replay(rec['case'])
@@ -135,7 +138,11 @@ def main(argv):
             mod = load(prop_id)
             runner.bind()
             shard = json.loads(argv[argv.index('--replay-shard') + 1])
-            acc = mod.run_shard(shard)
+            viol = []
+            for sh in (shard if isinstance(shard, list) else [shard]):
+                viol.extend(mod.run_shard(sh).viol)
+            acc = runner.Acc()
+            acc.viol = viol
             for v in acc.viol:
                 print('SHARD ' + json.dumps({'sub': v['sub'], 'case': runner.jsonable(v['case']),
                                              'observed': runner.jsonable(v['observed'])}))
